@@ -11,7 +11,7 @@ INFO = {
                "non-error path (so an empty collection is still emitted); start() hands the successor fresh Titles; "
                "the collected rows are produced by the same Context::build the JSON sink uses; every stage in front "
                "of them forwards start and complete, complete is signalled exactly once, and Master::go reaches "
-               "complete on every non-error path.",
+               "complete on every non-error path. Per-row scenarios decided by partial evaluation: a row is stored exactly when the group key is a string (once, as Context::build(row), under that key, in an insertion-ordered map read front to back); merge stores every row.",
     "not_decided": "Key order, membership and which rows survive (run-time values of the maps and vectors).",
     "trusted": ["sa/tables/pipeline_order.toml"],
 }
